@@ -580,4 +580,23 @@ theorem DecodeVarint_eq (fuel : Nat) (hf : 11 ≤ fuel) (p : Bytes) (hp : p.leng
         simp only [Go.seq, hA, hB, hC, hD, hE]
         cases hx : Go.loop DecodeVarint.loop2.cond (DecodeVarint.loop2.body fuel) DecodeVarint.loop2.post fuel (St2 (b0 :: rest) (BitVec.setWidth 64 (b0.toBitVec &&& 127#8)) 0#64 Go.Err.nil 1 0#64) <;> simp [ovf, toRes]
 
+/-! ## end to end, on the translated source alone -/
+
+/-- **the source's `EncodeVarint` followed by the source's `DecodeVarint` is the identity**: for every 64-bit value and
+    every destination buffer with room (whatever it held before), running the TRANSLATION of `EncodeVarint` and then the
+    TRANSLATION of `DecodeVarint` on the buffer returns the value and the number of bytes written.  No model function
+    occurs in the statement: it is a theorem about the two Go functions as they are in `/repo` now. -/
+theorem translated_varint_roundtrip (fuel : Nat) (hf : 11 ≤ fuel) (v : BitVec 64) (dest : Bytes)
+    (hroom : 10 ≤ dest.length) (hlen : dest.length < 2 ^ 63) :
+    ∃ n s', EncodeVarint fuel dest v = .ret n s' ∧ s'.dest.length = dest.length ∧
+      toRes (DecodeVarint fuel s'.dest) = .ok (v.toNat, n.toNat) := by
+  have h10 := encVarint_length_le_10 (v := v.toNat) (by rw [two64_eq]; exact v.isLt)
+  obtain ⟨s', h1, h2⟩ := EncodeVarint_ok fuel dest v (by omega) (by omega)
+  refine ⟨_, s', h1, ?_, ?_⟩
+  · rw [h2]; simp; omega
+  · have hl : s'.dest.length < 2 ^ 63 := by rw [h2]; simp; omega
+    rw [DecodeVarint_eq fuel hf s'.dest hl, h2, decodeVarint_encVarint v.toNat (by rw [two64_eq]; exact v.isLt)]
+    simp
+    omega
+
 end Csproto.Bridge.WireFuncs
